@@ -84,6 +84,7 @@ fn kinds(proxy: &str) -> Vec<Kind> {
         k(p1, &format!("v1:{Y}")),
         k(p1, &format!("v2:{Z}")),
         k(p2, &format!("v1:{Z}")),
+        k(p2, &format!("v2d:{Y}")),
         k(p1, "none"),
         k(p1, "malformed"),
         k(p1, "truncated"),
@@ -125,6 +126,13 @@ fn header_bytes(kind: &Kind, server: SocketAddr) -> Vec<u8> {
             let a: SocketAddr = h[3..].parse().unwrap();
             proxy_v2(a, dst(a))
         }
+        // a version 2 header that names the datagram transport (0x12 / 0x22): legal, and it announces a source
+        h if h.starts_with("v2d:") => {
+            let a: SocketAddr = h[4..].parse().unwrap();
+            let mut b = proxy_v2(a, dst(a));
+            b[13] = (b[13] & 0xf0) | 0x02;
+            b
+        }
         other => common::machinery(&format!("header {other}")),
     }
 }
@@ -137,6 +145,9 @@ enum Expect {
     Limited(SocketAddr),
     /// valid header without an address: either closed, or treated as coming from the peer
     PeerOrClosed,
+    /// a header that announces an address in a form a router may decline to take from a TCP peer (version 2 with
+    /// the datagram transport): closed unserved, or served as the announced source - never as anybody else
+    AnnouncedOrClosed(SocketAddr),
 }
 
 fn expect(proxy: &str, kind: &Kind, peer_addr: SocketAddr) -> Expect {
@@ -150,6 +161,9 @@ fn expect(proxy: &str, kind: &Kind, peer_addr: SocketAddr) -> Expect {
         "none" | "malformed" | "truncated" | "stall-silent" | "stall-half-header" => Expect::ClosedUncounted,
         "v1-unknown" => if version_allowed("v1") { Expect::PeerOrClosed } else { Expect::ClosedUncounted },
         "v2-local" => if version_allowed("v2") { Expect::PeerOrClosed } else { Expect::ClosedUncounted },
+        h if h.starts_with("v2d:") => {
+            if version_allowed("v2") { Expect::AnnouncedOrClosed(h[4..].parse().unwrap()) } else { Expect::ClosedUncounted }
+        }
         h => {
             let (v, a) = h.split_at(2);
             let a = a.split_once(':').unwrap().1;
@@ -250,7 +264,13 @@ fn run_history(spec: &Spec) -> Vec<(String, String)> {
             let obs = run_connection(running.addr, kind, login).await;
             let seen: Vec<SocketAddr> = if login { log.lock().unwrap().auth_clients[auth_before..].to_vec() } else { log.lock().unwrap().status_clients[status_before..].to_vec() };
             let mut bad = |key: String, t: String| v.push((key, format!("connection #{i} {kind:?}: {t}")));
-            match expect(&spec.proxy, kind, obs.local) {
+            let expected = match expect(&spec.proxy, kind, obs.local) {
+                Expect::AnnouncedOrClosed(a) if obs.served || obs.bytes_received > 0 => Expect::Limited(a),
+                // closed without a byte: declined (or refused by the limiter, which costs nothing either)
+                Expect::AnnouncedOrClosed(_) => continue,
+                e => e,
+            };
+            match expected {
                 Expect::ClosedUncounted => {
                     if obs.served || obs.bytes_received > 0 {
                         bad(format!("served-without-valid-header:{}", kind.header.split(':').next().unwrap()), format!("received {} bytes ({})", obs.bytes_received, obs.detail));
@@ -288,6 +308,7 @@ fn run_history(spec: &Spec) -> Vec<(String, String)> {
                         }
                     }
                 }
+                Expect::AnnouncedOrClosed(_) => unreachable!("resolved above"),
                 Expect::PeerOrClosed => {
                     if obs.served {
                         // treated as a connection from the peer: must be charged to and served under the peer address
@@ -334,7 +355,13 @@ fn run_history_via_start(spec: &Spec) -> Vec<(String, String)> {
         for (i, kind) in spec.history.iter().enumerate() {
             let obs = run_connection(addr, kind, false).await;
             let mut bad = |key: String, t: String| v.push((format!("{key}:through-passage-start"), format!("connection #{i} {kind:?} (passage::start, proxy {mode}): {t}")));
-            match expect(&spec.proxy, kind, obs.local) {
+            let expected = match expect(&spec.proxy, kind, obs.local) {
+                Expect::AnnouncedOrClosed(a) if obs.served || obs.bytes_received > 0 => Expect::Limited(a),
+                // closed without a byte: declined (or refused by the limiter, which costs nothing either)
+                Expect::AnnouncedOrClosed(_) => continue,
+                e => e,
+            };
+            match expected {
                 Expect::ClosedUncounted => {
                     if obs.served || obs.bytes_received > 0 {
                         bad(format!("served-without-valid-header:{}", kind.header.split(':').next().unwrap()), format!("received {} bytes ({})", obs.bytes_received, obs.detail));
@@ -349,6 +376,7 @@ fn run_history_via_start(spec: &Spec) -> Vec<(String, String)> {
                         bad("refused-address-served".into(), format!("effective address {eff}: the limiter refuses it but the client received {} bytes", obs.bytes_received));
                     }
                 }
+                Expect::AnnouncedOrClosed(_) => unreachable!("resolved above"),
                 Expect::PeerOrClosed => {
                     if obs.served {
                         let _ = shadow.as_mut().map(|s| s.enqueue(obs.local.ip()));
